@@ -506,6 +506,8 @@ def run(tier, seed):
     audit_bad = 0
     for t, r in zip(audit, res_a):
         c = caches[t[0]][(t[1], t[2])]
+        if "inconclusive" in (r[0], c[0]):
+            continue    # the recomputation ran out of its time budget (loaded machine): nothing to compare
         if r[0] != c[0] or (r[0] in ("tensor", "H1") and not np.allclose(r[1], c[1], rtol=1e-9, atol=0)):
             audit_bad += 1
     res = common.pmap(reference, todo, chunk=6) if todo else []
